@@ -11,6 +11,10 @@ CHECK = {
     "level_note": 'trusts harness/vq EvalNF as the meaning of a definition; while a converter job is parked (its output is on disk but the service has not been told) tags looking at converter output are not asserted; tag definitions with converter-output filters are excluded while F-C06-converter-reset-stale is open; relative-time tags are rejected by the service and not generated',
     "assumptions": [],
     "extra_builds": [{"pkg": "internal/verif/convbin", "out": "convbin"}],
+    "rewrites": [
+        # reassembly snapshots after 4 packets instead of 100000: the scenarios have a few dozen packets
+        {"file": "internal/index/builder/builder.go", "pattern": r">= 100_000\b", "replacement": ">= 4"},
+    ],
     "campaigns": [
         {"test": "TestVerifC06", "checks": {"quick": 800, "thorough": 40000}, "steps": 40, "shrinktime": "90s", "death_is_violation": True,
          "timeout": {"quick": 600, "thorough": 5400}},
